@@ -189,6 +189,7 @@ func runC04(w *World, r *Report) {
 	c04Orchestration(w, r)
 	c04Builder(w, r)
 	c04KindRouting(w, r)
+	c04ForeignRootConsumedOnce(w, r)
 	r.Min("R8", 10)
 	r.Min("R1", 6)
 	r.Min("R2", 1)
@@ -635,5 +636,75 @@ func c04KindRouting(w *World, r *Report) {
 			})
 		}
 		r.Check(okU, "R8", "getUserFlow/reads/userFlows", gu.Pos(), "user flows are selected from node.userFlows")
+	}
+}
+
+// c04ForeignRootConsumedOnce: the entry point handed over by an incorporated
+// flow (flowBuilder.foreignRoot) is a one-shot hand-off: every function that
+// uses it to wire a connection clears it before returning successfully, so a
+// later reference to a flow without an entry in that direction is rejected
+// ("foreign root node not found") instead of being wired to the previous flow.
+func c04ForeignRootConsumedOnce(w *World, r *Report) {
+	n := 0
+	for _, f := range w.lunarFns {
+		if f.Origin() != nil || fnPkgPath(f) != pkgFlow {
+			continue
+		}
+		var uses []ssa.Instruction
+		var clears []*ssa.Store
+		Instrs(f, func(in ssa.Instruction) {
+			switch x := in.(type) {
+			case *ssa.Store:
+				if fa, ok := x.Addr.(*ssa.FieldAddr); ok && fieldName(fa.X.Type(), fa.Field) == "foreignRoot" {
+					if isNilConst(x.Val) {
+						clears = append(clears, x)
+					}
+				}
+			case *ssa.UnOp:
+				if fa, ok := x.X.(*ssa.FieldAddr); ok && x.Op == token.MUL && fieldName(fa.X.Type(), fa.Field) == "foreignRoot" {
+					// a use is a load that feeds something other than the nil test
+					if x.Referrers() != nil {
+						for _, u := range *x.Referrers() {
+							if b, isB := u.(*ssa.BinOp); isB && (isNilConst(b.X) || isNilConst(b.Y)) {
+								continue
+							}
+							uses = append(uses, x)
+							break
+						}
+					}
+				}
+			}
+		})
+		if len(uses) == 0 {
+			continue
+		}
+		n++
+		ok := len(clears) >= 1
+		for _, u := range uses {
+			cleared := false
+			for _, c := range clears {
+				if domInstr(u, c) {
+					cleared = true
+				}
+			}
+			ok = ok && cleared
+		}
+		// every successful (nil error) return is reached only after the clear
+		for _, alt := range ReturnAlts(f, f.Signature.Results().Len()-1) {
+			if !isNilConst(alt.Val) {
+				continue
+			}
+			dom := false
+			for _, c := range clears {
+				if domInstr(c, alt.Ret) {
+					dom = true
+				}
+			}
+			ok = ok && dom
+		}
+		r.Check(ok, "R7", "foreignRoot-consumed-once/"+shortFn(fnID(f)), f.Pos(), "the handed-over entry point is cleared after it is used and before the function returns successfully")
+	}
+	if n < 2 {
+		r.Undec("R7", "foreignRoot-consumed-once", token.NoPos, "expected at least two consumers of flowBuilder.foreignRoot, found %d", n)
 	}
 }
